@@ -2,6 +2,8 @@ package c07
 
 import (
 	"encoding/json"
+	"fmt"
+	"strings"
 	"sync"
 
 	"github.com/saucelabs/forwarder/verifharness/core"
@@ -60,10 +62,14 @@ func genBatch(r *core.Rand, quick bool) *hsBatch {
 	return b
 }
 
-var originKinds = []string{"valid", "expired", "wrongname", "untrusted"}
-
 func genOrigin(r *core.Rand) *originCase {
-	oc := &originCase{Kind: "origin", Origin: core.Pick(r, originKinds)}
+	oc := &originCase{Kind: "origin", Via: core.Pick(r, originVias)}
+	for {
+		oc.Origin = core.Pick(r, originKinds)
+		if originExists(oc.Via, oc.Origin) {
+			break
+		}
+	}
 	// long-lived entries: expiry histories belong to the hs batches, which replay alone
 	oc.Env = EnvCfg{CacheSize: uint32(core.Pick(r, []int{1, 2, 4})), CacheTTLms: hour, ValidityMs: hour}
 	oc.Env.Insecure = r.Chance(35)
@@ -74,24 +80,127 @@ func genOrigin(r *core.Rand) *originCase {
 	default:
 		oc.HasXFP, oc.XFP = true, "http"
 	}
+	// explicit port in CONNECT and Host (with X-Forwarded-Proto: http the default port keeps the
+	// clear-text request of F17 on the listener routed for port 80)
+	if !(oc.HasXFP && oc.XFP == "http") && r.Chance(40) {
+		oc.Port = core.Pick(r, []string{"443", "8443"})
+	}
 	return oc
 }
 
-var domainLists = [][]string{
-	nil,
-	{`^mitm-.*\.test$`, `-^mitm-skip\.test$`},
-	{`.*`, `-skip`},
-	{`\.test$`},
-	{`^valid\.test$`, `^mitm-a\.test$`},
-	{`^(valid|skip-a)\.test$`, `-^skip-a`, `-untrusted`},
+// sweepOrigins: the full cross product {dns, ip4, ip6} × certificate kinds × {insecure off, on}, every run.
+func sweepOrigins(r *core.Rand) []*originCase {
+	var out []*originCase
+	for _, via := range originVias {
+		for _, kind := range originKinds {
+			if !originExists(via, kind) {
+				continue
+			}
+			for _, ins := range []bool{false, true} {
+				oc := &originCase{Kind: "origin", Via: via, Origin: kind, Port: core.Pick(r, []string{"", "443", "8443"})}
+				oc.Env = EnvCfg{CacheSize: 2, CacheTTLms: hour, ValidityMs: hour, Insecure: ins}
+				out = append(out, oc)
+			}
+		}
+	}
+	return out
 }
 
-var domainHosts = []string{"valid.test", "mitm-a.test", "mitm-skip.test", "skip-a.test", "skip-b.test"}
+// mitm-domains lists: anchored and unanchored include and exclude rules over names and literals,
+// case-insensitive groups, and rules whose verdict would change if anything but the bare host name
+// (host:port, brackets) were matched.
+var domainLists = [][]string{
+	nil,
+	{`^mitm-.*\.test$`, `-^mitm-skip\.test$`},                          // anchored include, fully anchored exclude
+	{`.*`, `-skip`},                                                     // unanchored
+	{`\.test$`},                                                         // end-anchored include only
+	{`^allow\.test$`, `^mitm-a\.test$`},                                 // fully anchored includes
+	{`^(allow|skip-a)\.test$`, `-^skip-a`, `-untrusted`},                // start-anchored exclude
+	{`.*`, `-^intranet\.corp$`, `-\.internal$`},                         // "everything but": end-anchored excludes
+	{`.*`, `-^192\.0\.2\.10$`, `-^2001:db8::d0:1$`},                     // anchored excludes of IP literals
+	{`.`, `-192\.0\.2\.10`, `-2001:db8::d0:1`},                          // the same, unanchored
+	{`(?i:^allow\.test$)`, `(?i:corp$)`, `-(?i:^skip-b\.test$)`},        // letter case ignored, anchored
+	{`^[a-z0-9.:-]+$`, `-^skip-[ab]\.test$`},                            // lower-case hosts only
+	{`(test|corp)$`, `-^(mitm-skip|skip-a)\.test$`, `-^INTRANET\.CORP$`}, // end-anchored include, anchored excludes, one in upper case
+	{`\d$`},                                                             // ends in a digit: literals only, never host:port of a name
+	{`.*`, `-:\d+$`},                                                    // excludes what ends in :digits
+	{`^[^:]*$`},                                                         // no colon at all: names and IPv4, not IPv6
+	{`:`, `internal$`},                                                  // IPv6 literals and *.internal
+}
+
+var domainSweepPorts = []string{"443", "8443", "80", "10443"}
+
+// spellings of a host: as is, upper case, mixed
+func spellingsOf(t Target) []string {
+	up := strings.ToUpper(t.Host)
+	out := []string{t.Host}
+	if up != t.Host {
+		out = append(out, up)
+	}
+	if t.Kind == "dns" {
+		b := []byte(t.Host)
+		for i := 0; i < len(b); i += 2 {
+			if b[i] >= 'a' && b[i] <= 'z' {
+				b[i] -= 32
+			}
+		}
+		out = append(out, string(b))
+	}
+	return out
+}
 
 func genDomain(r *core.Rand) *domainCase {
-	dc := &domainCase{Kind: "domains", Host: core.Pick(r, domainHosts)}
+	t := core.Pick(r, domainHostsCanon)
+	dc := &domainCase{Kind: "domains", Host: t.Host, HostKind: t.Kind}
+	switch x := r.Intn(100); {
+	case x < 40:
+	case x < 60:
+		dc.Host = core.Pick(r, spellingsOf(t))
+	default:
+		dc.Host = randCase(r, t.Host)
+	}
+	switch x := r.Intn(100); {
+	case x < 25:
+		dc.Port = "443"
+	case x < 45:
+		dc.Port = "8443"
+	case x < 60:
+		dc.Port = "80"
+	default:
+		dc.Port = fmt.Sprint(r.Range(1, 65535))
+	}
 	dc.Env = EnvCfg{CacheSize: uint32(core.Pick(r, []int{1, 3})), CacheTTLms: hour, ValidityMs: hour, Domains: core.Pick(r, domainLists)}
 	return dc
+}
+
+// sweepDomains: every list × every port class × every host in its fixed spellings, every run.
+func sweepDomains() []*domainCase {
+	var out []*domainCase
+	for _, l := range domainLists {
+		for _, p := range domainSweepPorts {
+			for _, t := range domainHostsCanon {
+				for _, sp := range spellingsOf(t) {
+					dc := &domainCase{Kind: "domains", Host: sp, HostKind: t.Kind, Port: p}
+					dc.Env = EnvCfg{CacheSize: 3, CacheTTLms: hour, ValidityMs: hour, Domains: l}
+					out = append(out, dc)
+				}
+			}
+		}
+	}
+	return out
+}
+
+// spellingOf: the host spelling a case needs a route for ("" if none).
+func spellingOf(raw json.RawMessage) string {
+	var k struct {
+		Kind string `json:"kind"`
+		Host string `json:"host"`
+	}
+	json.Unmarshal(raw, &k)
+	if k.Kind == "domains" {
+		return k.Host
+	}
+	return ""
 }
 
 type runner struct {
@@ -100,8 +209,8 @@ type runner struct {
 	pool *envPool
 }
 
-func newRunner(ctx *core.Ctx) *runner {
-	f, err := newFixture(ctx)
+func newRunner(ctx *core.Ctx, spellings []string) *runner {
+	f, err := newFixture(ctx, spellings)
 	if err != nil {
 		core.Fatalf("C07: scripted origins: %v", err)
 	}
@@ -148,16 +257,20 @@ func Run(ctx *core.Ctx) {
 		"over 1-6 authorities (DNS names in any case, IPv4, bracketed IPv6, any port) with SNI same / absent / different / other case, repeated in 2-3 phases " +
 		"separated by a sleep past the shorter of TTL and validity; a handshake is non-trivial when the name is an IP literal, the SNI is absent or differs from " +
 		"the CONNECT host, the host has upper-case letters, or it happens after the sleep; (origin) one request inside an intercepted session to a scripted TLS origin " +
-		"with a valid / expired / wrong-name / untrusted-CA certificate, insecure mode off or on, client X-Forwarded-Proto absent / https / http; " +
-		"(domains) CONNECT under a mitm-domains include/exclude list to included, excluded and unlisted hosts; (api) the GetCertificate callback of TLSForHost and " +
+		"addressed by DNS name / IPv4 literal / bracketed IPv6 literal (default port, :443, :8443) that presents a valid (IP SAN for literals) / expired / " +
+		"wrong-name (other DNS name) / wrong-address (other IP SAN) / literal-spelled-as-dNSName / untrusted-CA certificate, extra CA through CACertFiles, " +
+		"insecure mode off or on, client X-Forwarded-Proto absent / https / http — the full cross product addressing × certificate × insecure every run, the rest drawn; " +
+		"(domains) CONNECT under 16 mitm-domains lists (anchored / unanchored / case-insensitive include and exclude rules over names and IP literals, rules whose " +
+		"verdict on host:port differs from that on the host) to included, excluded and unlisted hosts (names in lower / upper / mixed / random case, IPv4, bracketed IPv6) " +
+		"on ports 443 / 8443 / 80 / other — every list × port class × host spelling every run, more drawn with random ports and spellings; (api) the GetCertificate callback of TLSForHost and " +
 		"net.SplitHostPort / net.ParseIP / URL.Hostname on well-formed and malformed authority and SNI strings; distinct = distinct (configuration, authority, SNI, phase) " +
-		"resp. (configuration, origin kind, header) resp. strings")
+		"resp. (configuration, addressing, origin kind, port, header) resp. (configuration, host spelling, port) resp. strings")
 	ctx.Assume("crypto is not modelled: x509 verification is an abstract predicate in the Lean model (hypothesis FreshVerifies of the theorems); " +
 		"the run checks the real certificates with crypto/x509 as an independent verifier")
-	rn := newRunner(ctx)
-	defer rn.close()
-	for _, c := range core.LoadCorpus(ctx.Root, "C07") {
-		rn.one(c, ctx.Rng.Sub())
+	corpus := core.LoadCorpus(ctx.Root, "C07")
+	var spellings []string
+	for _, c := range corpus {
+		spellings = append(spellings, spellingOf(c))
 	}
 
 	type job struct {
@@ -177,6 +290,9 @@ func Run(ctx *core.Ctx) {
 		}
 		batches = append(batches, job{enc(b), r})
 	}
+	for _, c := range sweepOrigins(ctx.Rng.Sub()) {
+		light = append(light, job{enc(c), ctx.Rng.Sub()})
+	}
 	for i, n := 0, ctx.N(240, 3000); i < n; i++ {
 		r := ctx.Rng.Sub()
 		c := genOrigin(r)
@@ -185,13 +301,20 @@ func Run(ctx *core.Ctx) {
 		}
 		light = append(light, job{enc(c), r})
 	}
-	for i, n := 0, ctx.N(120, 1500); i < n; i++ {
+	for _, c := range sweepDomains() {
+		light = append(light, job{enc(c), ctx.Rng.Sub()})
+	}
+	for i, n := 0, ctx.N(200, 2500); i < n; i++ {
 		r := ctx.Rng.Sub()
 		c := genDomain(r)
 		if i < 1 {
 			ctx.Sample(c)
 		}
+		spellings = append(spellings, c.Host)
 		light = append(light, job{enc(c), r})
+	}
+	for _, t := range domainHostsCanon {
+		spellings = append(spellings, spellingsOf(t)...)
 	}
 	for i, n := 0, ctx.N(6000, 60000); i < n; i++ {
 		r := ctx.Rng.Sub()
@@ -200,6 +323,12 @@ func Run(ctx *core.Ctx) {
 			ctx.Sample(c)
 		}
 		light = append(light, job{enc(c), r})
+	}
+
+	rn := newRunner(ctx, spellings)
+	defer rn.close()
+	for _, c := range corpus {
+		rn.one(c, ctx.Rng.Sub())
 	}
 	core.Shuffle(ctx.Rng.Sub(), light)
 
@@ -228,7 +357,7 @@ func Run(ctx *core.Ctx) {
 }
 
 func Replay(ctx *core.Ctx, raw json.RawMessage) {
-	rn := newRunner(ctx)
+	rn := newRunner(ctx, []string{spellingOf(raw)})
 	defer rn.close()
 	rn.one(raw, ctx.Rng.Sub())
 }
